@@ -86,6 +86,7 @@ inductive ApiOp where
   | setFMode (m : FMode)                 -- `func_entry()` / `func_exit()`
   | inject (idx : Nat) (t : Tok)         -- `inject` at a location (`LocalFunction::add_instr`)
   | injectAtRaw (idx : Nat) (m : Mode) (t : Tok)   -- `FunctionModifier::inject_at` = `set_instrument_mode_at` + `add_instr_at`
+  | addInstrAt (idx : Nat) (t : Tok)     -- `FunctionModifier::add_instr_at(loc, op)` called directly: the list of that instruction's current mode
   | emptyAlt (idx : Nat)
   | emptyBlockAlt (idx : Nat)
   | finishFunc                           -- `get_fn_modifier` / `finish_instr` on the function flag
@@ -119,6 +120,14 @@ def apply (f : Func) : ApiOp → Option Func
       match ({ i with mode := some m } : Instr).addInstr t with
       | none => none
       | some (i', sp) => some { f with body := f.body.set idx i', fmode := none, hasSpecial := f.hasSpecial || sp }
+  | .addInstrAt idx t =>
+    -- neither the last selected location nor the function-level mode matter, and neither is changed
+    match f.body[idx]? with
+    | none => none
+    | some i =>
+      match i.addInstr t with
+      | none => none
+      | some (i', sp) => some { f with body := f.body.set idx i', hasSpecial := f.hasSpecial || sp }
   | .emptyAlt idx =>
     match f.body[idx]? with
     | some _ => some { f with body := modifyAt f.body idx (fun i => { i with alt := some [] }) }
